@@ -29,7 +29,7 @@ def grammar(rrel=None, params=(), qn="QN"):
     return f"""
 Model: imports*=Import items*=Item;
 Import: 'import' importURI=STRING;
-Item: Def | Box | Use | Wrap | AltUse;
+Item: Def | Box | Use | Wrap | AltUse | '<' Def '>';
 Def: 'def' name=ID ('=' v=INT)? (tag=Tag)?;
 Box: 'box' name=ID '{{' items*=Item '}}';
 AltUse: 'altuse' name=ID ':' alts+={refc}[','];
@@ -77,6 +77,7 @@ class Ent:
         self.stop = None
         self.idx = None  # index in the containing list
         self.pre_tokens = []  # raw tokens injected before this entity (faults)
+        self.angled = False  # def: written as `< def name >` (an alternative of the abstract rule with tokens around the rule)
         self.split = None  # use: the reference list continues after the single references ('also' ...) from this index
 
     def path(self):
@@ -245,6 +246,8 @@ class World:
                 _, b = T('"%s"' % e.uri)
                 e.start, e.stop = a, b
             elif e.kind == "def":
+                if e.angled:
+                    T("<")
                 a, _ = T("def")
                 _, b = T(e.name, "name")
                 if e.v is not None:
@@ -252,7 +255,9 @@ class World:
                     _, b = T(str(e.v), "int")
                 if e.tag is not None:
                     _, b = T(e.tag, "tag")
-                e.start, e.stop = a, b
+                e.start, e.stop = a, b  # the object is the Def: its text does not include the angle brackets
+                if e.angled:
+                    T(">")
             elif e.kind == "box":
                 a, _ = T("box")
                 T(e.name, "name")
@@ -387,6 +392,7 @@ def gen_world(tape, root, nfiles=1, qualified=False, max_refs=16, boxes=True, wr
                 else:
                     cont = containers[1 + tape.draw(len(containers) - 1, "which-box")]
             d = Ent("def", fresh("d"), p, cont)
+            d.angled = tape.chance(1, 6, "def-in-angle-brackets")
             if vals and tape.chance(1, 2, "val"):
                 d.v = 1 + tape.draw(9, "v")
             if vals and tape.chance(1, 3, "tag"):
